@@ -18,6 +18,7 @@ GNext == \/ /\ kq # <<>> /\ Handle /\ UNCHANGED hist
                \/ \E p \in 1..MaxIno, n \in Comp : Mkdir(p, n) /\ Lbl(<<"mkdir", Append(TruePath(p), n)>>)
                \/ \E i \in 1..MaxIno : Rmdir(i) /\ Lbl(<<"rmdir", TruePath(i)>>)
                \/ \E i, np \in 1..MaxIno, n \in Comp : Rename(i, np, n) /\ Lbl(<<"rename", TruePath(i), Append(TruePath(np), n)>>)
+               \/ \E i, j \in 1..MaxIno : RenameOver(i, j) /\ Lbl(<<"rename2", TruePath(i), TruePath(j)>>)
 GSpec == GInit /\ [][GNext]_gvars
 Emit == (steps = GenSteps /\ kq = <<>>) =>
           PrintT(<<"SCN", ToJson([hist |-> hist, paths |-> {x.path : x \in pathT}, nwd |-> Cardinality(wdT), npath |-> Cardinality(pathT),
